@@ -76,6 +76,9 @@ func flattenKey(t *Term) []*Term {
 	if t.Op == "call" && t.Name == "str" && len(t.Args) == 1 {
 		return flattenKey(t.Args[0]) // []byte(s)
 	}
+	if t.Op == "alloc" && t.Name == "slice" && len(t.Args) == 1 {
+		return nil // make([]byte, 0, n): the empty buffer a key is appended to
+	}
 	return []*Term{t}
 }
 
@@ -157,6 +160,22 @@ func (w *Walker) canonKey(prefix, rel *Term) *Term {
 	abs := prefix
 	if rel != nil && rel.Op != "nil" {
 		abs = mk("call", "append", prefix, rel)
+		// the relative key spelled as the absolute one with the prefix cut off:
+		// KeyBalance(a, d, id)[len(PrefixBalance):]
+		if rel.Op == "index" && rel.Name == "slice" && len(rel.Args) == 3 && rel.Args[2].Op == "nil" &&
+			rel.Args[1].LooseString() == "len("+prefix.LooseString()+")" {
+			full := flattenKey(w.ts.expandKeyCallsF(rel.Args[0], 0, true))
+			pf := flattenKey(w.ts.expandKeyCallsF(prefix, 0, true))
+			ok := len(full) >= len(pf) && len(pf) > 0
+			for i := range pf {
+				if ok && full[i].LooseString() != pf[i].LooseString() {
+					ok = false
+				}
+			}
+			if ok {
+				abs = rel.Args[0]
+			}
+		}
 	}
 	act := flattenKey(w.ts.expandKeyCallsF(abs, 0, true))
 	if len(act) == 0 {
